@@ -37,7 +37,7 @@ def run(tier, scratch, record=False):
         for q in qs:
             f.write(json.dumps(q) + "\n")
     binary = vlib.build_harness(scratch)
-    params = dict(cases=cp, hist_max_paths=2)
+    params = dict(cases=cp, hist_max_paths=2, hist_every=1)
     job = dict(prop=PROP, tier=tier, seed=vlib.seed(), params=params)
     out = vlib.run_workers(scratch, binary, RUNNER, job, case_timeout=120, total_timeout=3300 if tier == "thorough" else 900)
     prec = dict(params)
@@ -45,8 +45,9 @@ def run(tier, scratch, record=False):
     cov = dict(
         rule="%d queries emitted by TLC (every set of up to %s of 18 selector paths, incl. non-existent names), each on a fresh type with two "
              "values via MarshalContext and EncodeContext and re-built from its own QueryString; histories [q1, q2, unfiltered, q1, q2 on "
-             "the second value] on one fresh type for every ordered pair of queries with <= 2 paths that share a member or use a sub-query; "
-             "non-trivial = distinct queries" % (len(qs), "2" if tier == "quick" else "3"),
+             "the second value] on one fresh type for %s ordered pair of queries with <= 2 paths that share a member or use a sub-query "
+             "(all pairs of single-path queries); non-trivial = distinct queries" % (len(qs), "2" if tier == "quick" else "3",
+                                                                                    "every"),
         exhaustive=True, traces_validated_against_impl=len(qs))
     f = vlib.Findings(PROP)
     return vlib.conclude(PROP, tier, "model_checking", t0, out, f, RUNNER, prec, cov, ASSUME, record=record,
@@ -62,5 +63,5 @@ def replay(scratch, rp):
         for q in res.prints["QUERY"]:
             f.write(json.dumps(q) + "\n")
     binary, job = vlib.generic_replay(scratch, rp, RUNNER)
-    job["params"] = dict(cases=cp, hist_max_paths=0)
+    job["params"] = dict(cases=cp, hist_max_paths=0, hist_every=1)
     return vlib.finish_replay(PROP, binary, RUNNER, job, scratch)
